@@ -4,6 +4,7 @@
 From Coq Require Import ZArith List Field Ring Lia Bool Arith.
 From BL Require Import Base.Ops Base.Laws Model.Solver Proofs.Sums.
 Import ListNotations.
+Set Default Proof Using "All".
 
 Section Step.
 Variable O : Ops.
